@@ -911,6 +911,9 @@ func (x *Exec) ufApp(st *State, name string, s Sort, args []*Term) *Term {
 	return r
 }
 
+// congruenceSkipped is set by congruenceAxioms when it left a function out.
+var congruenceSkipped bool
+
 // congruenceAxioms: pairwise functional consistency of recorded applications.
 func congruenceAxioms(apps []appRec) []*Term {
 	var out []*Term
@@ -924,7 +927,10 @@ func congruenceAxioms(apps []appRec) []*Term {
 	}
 	for _, n := range names {
 		l := by[n]
-		if len(l) > 24 {
+		if len(l) > 80 {
+			// too many applications for pairwise consistency: a model of such a query may be
+			// spurious, so a "sat" answer is downgraded to undecided (see congruenceSkipped)
+			congruenceSkipped = true
 			continue
 		}
 		for i := 0; i < len(l); i++ {
@@ -936,7 +942,9 @@ func congruenceAxioms(apps []appRec) []*Term {
 				for k := range l[i].args {
 					eqs = append(eqs, mkEq(l[i].args[k], l[j].args[k]))
 				}
-				out = append(out, mkImplies(mkAnd(eqs...), mkEq(l[i].res, l[j].res)))
+				cg := mkImplies(mkAnd(eqs...), mkEq(l[i].res, l[j].res))
+				registerDef(cg, l[i].res, l[j].res)
+				out = append(out, cg)
 			}
 		}
 	}
